@@ -37,6 +37,11 @@ func Verif_C19_api() {
 	if reuse {
 		verifReach("buffer-reused")
 	}
+	// a burst: all records are queued before the writer goroutine gets to run (a backlog)
+	burst := verifChoose("burst", 2) == 1
+	if burst {
+		verifReach("burst")
+	}
 	var recs [][]byte
 	for j := 0; j < k; j++ {
 		n := 1 + verifChoose("len", 2)
@@ -51,8 +56,13 @@ func Verif_C19_api() {
 				buf[i] = '#'
 			}
 		}
-		verifYield() // the writer goroutine takes the record from the queue
+		if !burst {
+			verifYield() // the writer goroutine takes the record from the queue
+		}
 		recs = append(recs, rec)
+	}
+	if burst {
+		verifYield() // now the writer goroutine works through its backlog
 	}
 	verifCheckLog(dir, cur, recs, sizeLimit, "after the writer goroutine has processed the queue")
 	l.Close()
